@@ -178,8 +178,7 @@ Proof. vm_compute. reflexivity. Qed.
 Theorem five_xx_only_embedder_authorize : forall w n now st,
   one_index st ->
   (forall r, is_internal (snd (run_seq (init_auth w n now r) st)) = true -> ar_pol r = PolFailWith EInternalError) /\
-  (forall r, is_nil (cb_id r) = false ->
-             is_internal (snd (run_seq (continue_auth w n now r) st)) = true -> cb_pol r = PolFailWith EInternalError) /\
+  (forall r, is_internal (snd (run_seq (continue_auth w n now r) st)) = true -> cb_pol r = PolFailWith EInternalError) /\
   (forall r, is_internal (snd (run_seq (push_auth w n now r) st)) = false) /\
   (forall r, is_internal (snd (run_seq (init_back_auth w n now r) st)) = false).
 Proof.
@@ -235,10 +234,10 @@ Theorem frame_introspect : forall w now r st, fst (run_seq (introspect w now r) 
 Proof. exact introspect_frame. Qed.
 Print Assumptions frame_introspect.
 
-(* The frame does NOT extend to the authorization callback under the aliasing (default) storage:
-   a callback refused because the client of the session no longer exists has already let the
-   policy write into the stored session (found by suite c13, replayed on the real provider;
-   known finding D20).  Under the copying interpretation the store is untouched. *)
+(* The authorization callback: a callback refused because the client of the session no longer
+   exists invalidates the session it presented (fix 104fb04; found by suite c13 on the tree before
+   it: the refused request left the session behind, modified in place by the policy under the
+   default storage).  Both interpreters end in the same store. *)
 Definition orphan_world : world :=
   mkWorld (mkConfig POpenID [GAuthorizationCode] [] ["code"] [] false 600 300 false false 0 false false "" [] false false 0 false
              false false false false false 0 false false false false false false false false false
@@ -246,10 +245,10 @@ Definition orphan_world : world :=
 Definition orphan_session : asession :=
   mkASession 41 7 "" 0 37 0 0 "" 0 0 1000%Z 0 "" (mkParams 0 "https://c.example/cb" "" "code" "openid" "" "" PkEmpty "" 0 "" 0 "").
 Definition orphan_store : store := mkStore [] [orphan_session] [].
-Theorem refused_frame_callback_alias_refuted :
+Theorem refused_callback_client_deleted :
   let r := mkCbReq 37 (PolSuccess "user" "openid") in
   snd (run_alias (continue_auth orphan_world 3 0%Z r) orphan_store) = OErr EInvalidRequest /\
-  fst (run_alias (continue_auth orphan_world 3 0%Z r) orphan_store) <> orphan_store /\
-  fst (run_seq (continue_auth orphan_world 3 0%Z r) orphan_store) = orphan_store.
-Proof. vm_compute. repeat split; congruence. Qed.
-Print Assumptions refused_frame_callback_alias_refuted.
+  fst (run_alias (continue_auth orphan_world 3 0%Z r) orphan_store) = mkStore [] (del_asess 41 [orphan_session]) [] /\
+  fst (run_seq (continue_auth orphan_world 3 0%Z r) orphan_store) = mkStore [] (del_asess 41 [orphan_session]) [].
+Proof. vm_compute. repeat split. Qed.
+Print Assumptions refused_callback_client_deleted.
